@@ -16,7 +16,7 @@ RULE = ('states = quaternions of the alphabet (group elements, lattice non-unit 
 ASSUMPTIONS = ['integer lattice (entries in [-2,2]) non-unit quaternions make the non-unit laws exact in floating point',
                'tolerance 1e-12 absolute on unit operands, 1e-12 relative to the product of norms on non-unit operands',
                'scalar-last vs scalar-first objects are built from the same four numbers in the two orders; normalisation sums in a different order, hence 1e-15 on components and 1e-14 on derived matrices and products rather than bit equality (observed 1.1e-15 on menu entry 2)', 'scalar-last objects are multiplied with Hamilton-ordered right operands, as Quaternion.product documents']
-REQUIRED_CLASSES = ['triples', 'pairs:nonunit', 'inverse:unit', 'inverse:nonunit', 'order:S']
+REQUIRED_CLASSES = ['triples', 'pairs:nonunit', 'inverse:unit', 'inverse:nonunit', 'order:S', 'object-history']
 TOL = 1e-12
 
 
@@ -178,6 +178,81 @@ def job_order(ctx, k):
     ctx.sample({'scalar_last': np.roll(S[60], -1).tolist(), 'scalar_first': S[60].tolist()})
 
 
+OPS = ['conj', 'inv', 'log', 'exp', 'norm', 'prod', 'mulL', 'mulR', 'axang', 'pred']
+
+
+def _apply(Q, op, r):
+    if op == 'conj':
+        return np.asarray(Q.conjugate)
+    if op == 'inv':
+        return np.asarray(Q.inverse)
+    if op == 'log':
+        return np.asarray(Q.logarithm)
+    if op == 'exp':
+        return np.asarray(Q.exponential)
+    if op == 'norm':
+        Q.normalize()                       # the one public in-place operation
+        return None
+    if op == 'prod':
+        return np.asarray(Q.product(r.copy()))
+    if op == 'mulL':
+        return np.asarray(Q.mult_L())
+    if op == 'mulR':
+        return np.asarray(Q.mult_R())
+    if op == 'axang':
+        ax, an = Q.to_axang()
+        return np.r_[np.asarray(ax, float), float(an)]
+    if op == 'pred':
+        return np.array([float(Q.is_pure()), float(Q.is_real()), float(Q.is_versor()), float(Q.is_identity())])
+
+
+def _observe(Q, r):
+    out = {c: float(getattr(Q, c)) for c in 'wxyz'}
+    out['v'] = np.asarray(Q.v).tolist()
+    for op in OPS:
+        if op != 'norm':
+            out[op] = _apply(Q, op, r).tolist()
+    if Q.is_versor():
+        out['dcm'] = np.asarray(Q.to_DCM()).tolist()
+    return out
+
+
+def job_object_histories(ctx, k, depth):
+    """Explicit exploration of operation sequences on ONE quaternion object: after every sequence, everything the object shows must equal
+    what a fresh object built from its current components shows (no stale cached state)."""
+    Quaternion, O = _lib()
+    r = A.MENU[(k + 4) % 8]
+    starts = [('lattice[1,2,-2,4]', np.array([1.0, 2.0, -2.0, 4.0])), ('pure[0,3,0,4]', np.array([0.0, 3.0, 0.0, 4.0])), ('unit', A.MENU[k].copy()), ('scaled', A.MENU[(k + 1) % 8] * 2.5)]
+    import itertools, json
+    seen_states = set()
+    for sname, q0 in starts:
+        for order in ('H', 'S'):
+            for d in range(1, depth + 1):
+                for word in itertools.product(OPS, repeat=d):
+                    if 'norm' not in word and d > 1:
+                        continue            # read-only words longer than 1 cannot differ from their last read on a correct object
+                    Q = Quaternion((q0 if order == 'H' else np.roll(q0, -1)).copy(), versor=False, order=order)
+                    try:
+                        for op in word:
+                            _apply(Q, op, r)
+                            ctx.transitions += 1
+                        fresh = Quaternion(np.asarray(Q.A).copy(), versor=False, order=order)
+                        a, b = _observe(Q, r), _observe(fresh, r)
+                    except Exception as ex:
+                        ctx.evals += 1
+                        ctx.fail('object history raises', f'start={sname} order={order} ops={">".join(word)}', repr(ex)[:200], 'completes')
+                        continue
+                    ctx.expect(json.dumps(a, sort_keys=True) == json.dumps(b, sort_keys=True), 'after any operation sequence the object equals a fresh object built from its components',
+                               f'start={sname} order={order} ops={">".join(word)}', {k2: a[k2] for k2 in a if a[k2] != b[k2]}, 'identical observations')
+                    seen_states.add((sname, order, np.asarray(Q.A).tobytes()))
+                    ctx.seen(('hist', sname, order, word))
+                    ctx.cls('object-history')
+                    ctx.traces += 1
+    ctx.states += len(seen_states)
+    ctx.max_depth = max(ctx.max_depth, depth)
+    ctx.sample({'object_history': 'conj>norm>inv', 'start': [1.0, 2.0, -2.0, 4.0], 'ops': OPS})
+
+
 def run(ctx):
     ks = list(range(8)) if ctx.thorough else [A.seed_k(ctx.seed)]
     jobs = []
@@ -193,5 +268,6 @@ def run(ctx):
             jobs.append(('job_pairs', (k, lo, hi)))
         jobs.append(('job_inverse', (k,)))
         jobs.append(('job_order', (k,)))
+        jobs.append(('job_object_histories', (k, 4 if ctx.thorough else 3)))
     core.run_jobs(ctx, __name__, jobs)
     ctx.notes['menu_entries'] = ks
